@@ -68,6 +68,21 @@ func (vfs *MemFS) searchNode(path string, slMode slMode) (
 	for pi.Next() {
 		name := pi.Part()
 
+		if parent == volNode {
+			// the root is searched like any other directory
+			// (the root of a file system returned by Sub is an ordinary directory).
+			parent.mu.RLock()
+			ok := parent.checkPermission(avfs.OpenLookup, vfs.User())
+			parent.mu.RUnlock()
+
+			if !ok {
+				child = nil
+				err = vfs.err.PermDenied
+
+				return
+			}
+		}
+
 		parent.mu.RLock()
 		child = parent.children[name]
 		parent.mu.RUnlock()
